@@ -223,7 +223,7 @@ func fmtRisk(ctl string, args []string) string {
 	ds := parseDirs(ctl)
 	hugeArg := false
 	for _, a := range args {
-		if a == "big62" || a == "big70" || a == "minfix" {
+		if a == "big62" || a == "big70" || a == "minfix" || a == "big40" {
 			hugeArg = true
 		}
 	}
@@ -322,7 +322,7 @@ func fmtCall(scope *slip.Scope, ctl string, args []string) (slip.Object, *sl.Err
 			form = append(form, slip.List{slip.Symbol("quote"), obj})
 		}
 	}
-	steps = 0
+	steps, budgetAt = 0, stepBudget
 	var res slip.Object
 	err := sl.Catch(func() { res = scope.Eval(form, 0) })
 	return res, err, ""
